@@ -120,6 +120,10 @@ fn read_case(em: &mut Emitter, mode: u8, d: &[u8]) {
             if eoc_marker_accepted(mode, d) != Some((want, want)) {
                 return (Ints::new().n(-7), Oracle::Fail("end-of-contents-length-octets-not-read-under-the-mode".into()), true)
             }
+        } else if !d.is_empty() && !(d[0] == 0 || ((0x81..=0x84).contains(&d[0]) && d.len() > (d[0] - 0x80) as usize && d[1..=(d[0] - 0x80) as usize].iter().all(|&x| x == 0)))
+                  && eoc_marker_accepted(mode, d) != Some((false, false)) {
+            // anything that is not an encoding of zero (the indefinite form 0x80 included) never closes a value
+            return (Ints::new().n(-7), Oracle::Fail("length-octets-other-than-zero-accepted-as-end-of-contents".into()), true)
         }
         let r = probe_read(mode, d);
         let (obs, oracle) = match r {
